@@ -13,7 +13,8 @@ HARNESS = 'pipe-harness'
 PIPE_RASN = 'pipe_harness::pipe_rasn'
 PIPE_TS = 'pipe_harness::pipe_ts'
 RENDER = 'pipe_harness::render'
-ROOTS = [PIPE_RASN, PIPE_TS, RENDER]
+PIPE_PAIR = 'pipe_harness::pipe_rasn_pair'
+ROOTS = [PIPE_RASN, PIPE_TS, RENDER, PIPE_PAIR]
 DEFAULT_ANN = '#[derive(AsnType, Debug, Clone, Decode, Encode, PartialEq, Eq, Hash)]'
 
 _INSTALLED = [False]
@@ -188,6 +189,23 @@ class Pipe:
         gen = ex.force(cr.fields[names.index('generated')])
         warn = ex.force(cr.fields[names.index('warnings')])
         return ('ok', list(gen.chars), len(warn.cells), warn)
+
+    def _result(self, ex, r):
+        r = ex.force(r)
+        if self.p.variant_name(r) != 'Ok':
+            return ('err', r.fields[0], 0, None)
+        cr = ex.force(r.fields[0])
+        names = [fl['name'] for fl in self.p.ty(cr.ty)['adt']['variants'][0]['fields']]
+        gen = ex.force(cr.fields[names.index('generated')])
+        warn = ex.force(cr.fields[names.index('warnings')])
+        return ('ok', list(gen.chars), len(warn.cells), warn)
+
+    def compile_pair(self, ex, s1, s2, subst=None):
+        """two rasn compilers are built first and run afterwards: the two results"""
+        ex.ghost['pipe_subst'] = subst
+        mk = lambda ss: VecV([Cell(StringV([ord(c) for c in s])) for s in ss])
+        r = ex.force(ex.call(self.p.find(PIPE_PAIR), [self.mkconfig(ex, None), mk(s1), self.mkconfig(ex, None), mk(s2)]))
+        return self._result(ex, r.fields[0]), self._result(ex, r.fields[1])
 
 
 def text_repr(chars):
